@@ -57,7 +57,7 @@ def run(ctx):
     ctx.neg("PriorityMC", "PriorityNeg2.cfg", expect="I_InUse", workers=2)
     binary = ctx.go_build("internal/xds/balancer/priority", name="c39", only=r"zz_verif_c39_")
     g = ctx.dump_graph("PriorityMC", ctx.pick("PriorityGen.cfg", "PriorityGenT.cfg"))
-    behs = ctx.edge_cover(g, step_of, limit=ctx.pick(1000, 15000))
+    behs = ctx.edge_cover(g, step_of, limit=ctx.pick(1000, 10000))
     bpath = os.path.join(ctx.run, "beh.ndjson")
     tpath = os.path.join(ctx.run, "trace-replay.ndjson")
     write_ndjson(bpath, behs)
@@ -66,7 +66,7 @@ def run(ctx):
         ctx.count(b, nontrivial=len(b) >= 2)
     ctx.sample(behs[len(behs) // 2])
     tpath2 = os.path.join(ctx.run, "trace-random.ndjson")
-    n = ctx.pick(150, 5000)
+    n = ctx.pick(150, 3000)
     ctx.driver(binary, "TestVerifC39Random", {"VERIF_OUT": tpath2, "VERIF_N": n})
     ctx.count({"random_runs": n, "seed": ctx.seed}, n=n)
     tall = os.path.join(ctx.run, "trace-all.ndjson")
